@@ -135,6 +135,33 @@ class Event:
     site: str = ""
 
 
+class LazyArr:
+    """A havocked heap array that is only materialised (fresh z3 constant + frame for the objects
+    that were local at havoc time) when somebody reads it.  The cell is shared between the live
+    heap and its snapshots, so `old` and `new` views agree on the constant."""
+
+    __slots__ = ("name", "sort", "prev", "frame", "val")
+
+    def __init__(self, name, sort, prev, frame):
+        self.name = name
+        self.sort = sort
+        self.prev = prev
+        self.frame = frame
+        self.val = None
+
+    def get(self):
+        if self.val is None:
+            new = z3.Const(self.name, z3.ArraySort(IntS, self.sort))
+            if self.frame:
+                prev = self.prev.get() if isinstance(self.prev, LazyArr) else self.prev
+                for r in self.frame:
+                    new = z3.Store(new, r, z3.Select(prev, r))
+            self.val = new
+            self.prev = None
+            self.frame = None
+        return self.val
+
+
 class State:
     def __init__(self):
         self.env: dict[str, V] = {}
@@ -164,6 +191,7 @@ class VC:
     func: str
     tree: str
     extra: dict = field(default_factory=dict)
+    run: int = 0
 
 
 # ------------------------------------------------------------------------------
@@ -494,6 +522,7 @@ class Engine:
                 func=func,
                 tree=self.tree,
                 extra=extra or {},
+                run=self.cur_run,
             )
         )
 
@@ -521,9 +550,16 @@ class Engine:
 
     def heap_arr(self, st: State, key: str, sort, heap=None):
         h = st.heap if heap is None else heap
-        if key in h:
-            return h[key]
-        return self.initial_array(key, sort)
+        v = h.get(key)
+        if v is None:
+            return self.initial_array(key, sort)
+        if isinstance(v, LazyArr):
+            return v.get()
+        return v
+
+    def old_arr(self, old: dict, key: str, sort):
+        """array `key` in a heap snapshot (as handed to rely hooks)"""
+        return self.heap_arr(None, key, sort, heap=old)
 
     def heap_read(self, st: State, ref, key: str, heap=None, kind=None) -> V:
         """key = 'Class.field' (canonical).  Returns a V according to the declared kind."""
@@ -608,24 +644,24 @@ class Engine:
         r = ref.t if isinstance(ref, V) else ref
         alive = self.heap_arr(st, "$alive", BoolS)
         self.assume(st, z3.Implies(r != 0, z3.Select(alive, r)))
+        if isinstance(ref, VRef):
+            f = self.reg.__dict__.get("ref_facts", {}).get(ref.cls)
+            if f is not None:
+                self.assume(st, z3.Implies(r != 0, f(self, st, ref)))
 
     def havoc_heap(self, st: State, keys=None, keep_local=True):
-        """Replace non-const heap arrays by fresh ones. keys=None: every declared mutable key.
-        Objects allocated on this path and not yet published keep their fields (frame)."""
+        """Replace non-const heap arrays by fresh ones (lazily materialised). keys=None: every
+        declared mutable key.  Objects allocated on this path and not yet published keep their
+        fields (frame)."""
         old = dict(st.heap)
-        for key, kind in self.reg.mutable_keys():
-            if keys is not None and key not in keys:
-                continue
-            for sub, sort in self.reg.array_parts(key, kind):
-                st.counter += 1
-                new = z3.Const(f"H{st.counter}!{sub}", z3.ArraySort(IntS, sort))
-                if keep_local and sub in old and st.local_refs:
-                    oldarr = old[sub]
-                    short = key.split(".", 1)[0]
-                    for r in st.local_refs:
-                        if short in self._shorts_of_ref(st, r):
-                            new = z3.Store(new, r, z3.Select(oldarr, r))
-                st.heap[sub] = new
+        parts = self.reg.parts_cache(keys)
+        for sub, sort, short in parts:
+            st.counter += 1
+            frame = None
+            prev = old.get(sub)
+            if keep_local and prev is not None and st.local_refs:
+                frame = [r for r in st.local_refs if short in self._shorts_of_ref(st, r)]
+            st.heap[sub] = LazyArr(f"H{st.counter}!{sub}", sort, prev, frame)
         return old
 
     # ---- coercions ----------------------------------------------------------------------
@@ -928,6 +964,7 @@ class Engine:
 
     cur_variant = None
     cur_variant_params: dict = {}
+    cur_run = 0
 
     def _verify_variant(self, fi, contract, max_paths, exits):
         from .interp import Interp
@@ -940,6 +977,7 @@ class Engine:
             if npaths > max_paths:
                 raise Unsupported(f"{fi.key}: more than {max_paths} paths")
             self.oracle = Oracle(prefix)
+            self.cur_run += 1
             st = State()
             interp = Interp(self, fi)
             try:
